@@ -37,6 +37,9 @@ theorem req_spec (sh : SwitchHelper) (l : List String) :
 theorem quorum_spec (sh : SwitchHelper) (l : List String) :
     GetFailoverQuorum sh l = max ((l.length : Int) - GetRequiredWaitSlaveCount sh l) 1 := by
   unfold GetFailoverQuorum
+  -- (the right-hand side mentions the other generated definition: bring it to its normal form first — the left-hand
+  -- side may or may not go through it, depending on how the Go code is factored)
+  simp only [req_spec, tdiv2]
   quorum_arith
 
 /-- the check passes iff (semi-sync) the quorum is met, or (async) some replica is permissible -/
@@ -44,6 +47,7 @@ theorem check_spec (sh : SwitchHelper) (l : List String) (p : Int) :
     CheckFailoverQuorum sh l p = none
       ↔ (if sh.SemiSync = true then GetFailoverQuorum sh l ≤ p else p ≠ 0) := by
   unfold CheckFailoverQuorum
+  simp only [quorum_spec, req_spec, tdiv2]
   quorum_arith
 
 theorem check_spec_semi (sh : SwitchHelper) (l : List String) (p : Int) (hs : sh.SemiSync = true) :
